@@ -50,7 +50,7 @@ def group_envs(cases: list) -> list:
     """One package configuration per distinct (M, n, bindings); its cases are the site scopes TLC enumerated for it."""
     envs: dict = {}
     for c in cases:
-        e = envs.setdefault(env_key(c), {**{k: c[k] for k in ENV_KEYS}, "zmod": c["zmod"], "cases": {}, "suffix": {}, "stm": None})
+        e = envs.setdefault(env_key(c), {**{k: c[k] for k in ENV_KEYS}, "zmod": c["zmod"], "rks": sorted(c["va"]), "cases": {}, "suffix": {}, "stm": None})
         e["cases"][c["S"]] = c
         e["suffix"][c["S"]] = c["suffix"] if not c["S"].endswith(".m") else []
         if c["S"] == "A.init":
@@ -109,7 +109,7 @@ class Checker:
         self.overapprox = 0
         self.violating_cases: set = set()
         self.binders: set = set()
-        self.clauses = {"bound": 0, "param": 0, "unbound": 0, "exempt": 0, "chain": 0, "eloc": 0}
+        self.clauses = {"bound": 0, "param": 0, "unbound": 0, "exempt": 0, "chain": 0, "eloc": 0, "value-attr": 0}
 
     def check_env(self, e: dict, res: dict):
         run = self.run
@@ -153,6 +153,11 @@ class Checker:
             want = {"obj": ["obj", dotted(pyl["p"])], "param": ["param"], "unbound": ["unbound"]}[pyl["b"]]
             if probes.get(f"{sc}/late") != want:
                 die(f"C04: spec reference for stringized annotations disagrees with inspect.get_annotations(eval_str=True) on {ident} scope {sc}: spec {want}, CPython {probes.get(f'{sc}/late')}")
+        if not sc.endswith(".m"):
+            for rk in c["va"]:      # CPython: `<value>.n` is the attribute of the value, whatever the scopes bind under n
+                want = ["obj", "builtins.str"] if rk == "str" else ["attr"]
+                if probes.get(f"{sc}/v_{rk}") != want:
+                    die(f"C04: attribute-of-value probe {rk} in {sc} of {ident} saw {probes.get(f'{sc}/v_{rk}')}, expected {want}")
         for f in ("lam", "cmp"):
             if probes.get(f"{sc}/{f}") != ["local"]:
                 die(f"C04: expression-local probe {f} in {sc} of {ident} saw {probes.get(f'{sc}/{f}')}")
@@ -194,6 +199,15 @@ class Checker:
                 sig_py = "expr-local"
                 if not c["exempt"]:
                     self.clauses["eloc"] += 1
+            elif form.startswith("v_"):
+                rk = {"v_chain": "call", "v_dec": "call"}.get(form, form[2:])
+                tail = ".K" if form == "v_chain" else ""
+                va = c["va"][rk]
+                expect = (n if va["impl"]["k"] == "name" else dotted(va["impl"]["p"])) + tail
+                want = (n if va["ref"]["k"] == "name" else dotted(va["ref"]["p"])) + tail
+                kind, sig_py = "value-attr", "attribute-of-value"
+                ok = real == want or (rk == "str" and real == n + tail)
+                self.clauses["value-attr"] += 1
             elif form.startswith("c"):
                 i = int(form[1:])
                 want = dotted(py["p"] + c["suffix"][:i])
